@@ -74,3 +74,153 @@ pub fn pretty_print_source_module(
 ) -> String {
   prettier::pretty_print(available_width, source_printer::source_module_to_document(heap, module))
 }
+
+/// Verification hooks (H4): the layout engine (`prettier::pretty_print`) and the `Document`
+/// builders on serialised documents. Compiled only with `--cfg samlang_verif`; nothing changes
+/// otherwise.
+#[cfg(samlang_verif)]
+pub mod verif_hooks {
+  use super::prettier::{Document, pretty_print};
+  use std::rc::Rc;
+
+  fn unhex(s: &str) -> Result<String, String> {
+    if s == "-" {
+      return Ok(String::new());
+    }
+    if s.len() % 2 != 0 {
+      return Err(format!("bad hex {s}"));
+    }
+    let mut bytes = Vec::with_capacity(s.len() / 2);
+    for i in 0..s.len() / 2 {
+      bytes.push(u8::from_str_radix(&s[2 * i..2 * i + 2], 16).map_err(|e| e.to_string())?);
+    }
+    String::from_utf8(bytes).map_err(|e| e.to_string())
+  }
+
+  fn hex(s: &str) -> String {
+    if s.is_empty() {
+      return "-".to_string();
+    }
+    s.bytes().map(|b| format!("{b:02x}")).collect()
+  }
+
+  fn leak(s: String) -> &'static str {
+    Box::leak(s.into_boxed_str())
+  }
+
+  /// Prefix notation, blank separated:
+  /// `N` | `T hex` | `S hex` | `L` | `LN` | `LH` | `C a b` | `I n a` | `U a b` (primitive nodes) and
+  /// the builders `G a` (group) | `BF hexleft sep a hexright` (bracket_flexible) | `LC hex`
+  /// (line_comment) | `MC hexstarter hex` (multiline_comment) | `CV n a1 .. an` (concat of a vec).
+  fn parse<'a>(toks: &mut impl Iterator<Item = &'a str>) -> Result<Document, String> {
+    let t = toks.next().ok_or("unexpected end")?;
+    Ok(match t {
+      "N" => Document::Nil,
+      "T" => Document::Text(leak(unhex(toks.next().ok_or("T arg")?)?)),
+      "S" => Document::non_static_str(unhex(toks.next().ok_or("S arg")?)?),
+      "L" => Document::Line,
+      "LN" => Document::LineFlattenToNil,
+      "LH" => Document::LineHard,
+      "C" => {
+        let a = parse(toks)?;
+        let b = parse(toks)?;
+        Document::Concat(Rc::new(a), Rc::new(b))
+      }
+      "I" => {
+        let n: usize = toks.next().ok_or("I arg")?.parse().map_err(|_| "I n")?;
+        Document::Nest(n, Rc::new(parse(toks)?))
+      }
+      "U" => {
+        let a = parse(toks)?;
+        let b = parse(toks)?;
+        Document::Union(Rc::new(a), Rc::new(b))
+      }
+      "G" => Document::group(parse(toks)?),
+      "BF" => {
+        let left = leak(unhex(toks.next().ok_or("BF left")?)?);
+        let sep = parse(toks)?;
+        let doc = parse(toks)?;
+        let right = leak(unhex(toks.next().ok_or("BF right")?)?);
+        Document::bracket_flexible(left, sep, doc, right)
+      }
+      "LC" => Document::line_comment(&unhex(toks.next().ok_or("LC arg")?)?),
+      "MC" => {
+        let starter = leak(unhex(toks.next().ok_or("MC starter")?)?);
+        Document::multiline_comment(starter, &unhex(toks.next().ok_or("MC arg")?)?)
+      }
+      "CV" => {
+        let n: usize = toks.next().ok_or("CV arg")?.parse().map_err(|_| "CV n")?;
+        let mut v = Vec::with_capacity(n);
+        for _ in 0..n {
+          v.push(parse(toks)?);
+        }
+        Document::concat(v)
+      }
+      other => return Err(format!("unknown node {other}")),
+    })
+  }
+
+  fn dump_into(d: &Document, out: &mut Vec<String>) {
+    match d {
+      Document::Nil => out.push("N".into()),
+      Document::Concat(a, b) => {
+        out.push("C".into());
+        dump_into(a, out);
+        dump_into(b, out);
+      }
+      Document::Nest(n, a) => {
+        out.push("I".into());
+        out.push(n.to_string());
+        dump_into(a, out);
+      }
+      Document::Text(s) => {
+        out.push("T".into());
+        out.push(hex(s));
+      }
+      Document::NonStaticText(s) => {
+        out.push("S".into());
+        out.push(hex(s));
+      }
+      Document::Line => out.push("L".into()),
+      Document::LineFlattenToNil => out.push("LN".into()),
+      Document::LineHard => out.push("LH".into()),
+      Document::Union(a, b) => {
+        out.push("U".into());
+        dump_into(a, out);
+        dump_into(b, out);
+      }
+    }
+  }
+
+  fn parse_all(doc: &str) -> Result<Document, String> {
+    let mut it = doc.split(' ').filter(|s| !s.is_empty());
+    let d = parse(&mut it)?;
+    if it.next().is_some() {
+      return Err("trailing tokens".to_string());
+    }
+    Ok(d)
+  }
+
+  /// `prettier::pretty_print(width, doc)` on a serialised document.
+  pub fn layout(width: usize, doc: &str) -> Result<String, String> {
+    Ok(pretty_print(width, parse_all(doc)?))
+  }
+
+  /// The document after running the builders, in primitive nodes only.
+  pub fn expand(doc: &str) -> Result<String, String> {
+    let d = parse_all(doc)?;
+    let mut out = Vec::new();
+    dump_into(&d, &mut out);
+    Ok(out.join(" "))
+  }
+
+  /// `Document::flatten`, `None` for documents with a hard line.
+  pub fn flatten(doc: &str) -> Result<Option<String>, String> {
+    let d = parse_all(doc)?;
+    Ok(d.flatten().map(|f| {
+      let mut out = Vec::new();
+      dump_into(&f, &mut out);
+      out.join(" ")
+    }))
+  }
+}
